@@ -341,7 +341,7 @@ def parse_branch(ctx):
     return _emit(d)
 
 
-@rule("SEQ-OPTIMIZE-ARMS", ["C20", "C08", "C05", "C01"], floor=3)
+@rule("SEQ-OPTIMIZE-ARMS", ["C20", "C08", "C05", "C01", "C07"], floor=3)
 def seq_optimize_arms(ctx):
     """Sequence::optimize: an empty sequence is Nothing, a one-element sequence is that element, a longer one is
     rebuilt from the per-element closure in the same order."""
